@@ -37,7 +37,7 @@ CHECKS = {
          "Absolute paths from every start node vs. the root; relative paths vs. addr(n)/p from the root; P[true()], (P), P|P, not(not(P)) identities; all also compared with the reference so a common-mode error cannot pass (paths whose last step carries a positional predicate on any axis take part in the relations only: no property says what they select)." + EXPL, REF, "DESIGN.md section 4 C13"),
  "C14": ("property-based testing (rapid) over namespace configurations with the statement transcribed as oracle",
          "Documents with 0-3 namespaces under varying prefixes x both navigator flavours x namespace maps (none, binding, re-binding, missing, empty, nil) x name tests on all axes and the three name functions; results must follow the documented matching rule, unbound prefixes must be compile errors; nothing is asserted where the statement is silent." + EXPL, REF, "DESIGN.md section 4 C14"),
- "C15": ("property-based testing with an unconstrained expression grammar and token soup (rapid) + exhaustive ill-typed call/operator enumeration + native fuzzing (thorough), validity-predicate oracle with an operation budget",
+ "C15": ("property-based testing with an unconstrained expression grammar and token soup (rapid) + exhaustive ill-typed call/operator enumeration + exhaustive pumped predicates under an allocation budget + native fuzzing (thorough), validity-predicate oracle with an operation budget",
          "Whatever Compile accepts is evaluated (Select and Evaluate, drained) on small documents (one in four wide, deep, a chain of 25 levels or attribute-rich; non-ASCII names and values): it must complete or panic with a non-runtime error value, return a documented type, and terminate within a navigator-operation budget (decisive on documents of <= 16 nodes, re-decided on pruned copies otherwise)." + EXPL, "A panic whose value is an error but not a runtime.Error counts as deliberate. KF-round (round() returns int) is a recorded known finding.", "DESIGN.md section 4 C15"),
  "C16": ("property-based differential testing against Go's regexp (rapid) + stateful cache histories with invariants + goroutine block under the race detector",
          "matches()/replace() over a regex grammar with up to 12 groups vs. regexp and a manual expansion, incl. multi-byte subjects, the empty node-set as subject, two resembling patterns in one expression and patterns/replacements taken from the document node by node; cache histories over capacities 0..5 with failing loads and a swapped-in RegexpCache, checked after every step (exact value, bounded size, no load for cached keys, failed loads not remembered); a harness-owned schedule in which all loads are held in their miss window and released in a drawn order; concurrent gets under -race." + EXPL, "Trusts Go's regexp and the verif-tagged cache accessors; schedules are sampled.", "DESIGN.md section 4 C16"),
